@@ -400,6 +400,21 @@ func Corpus(goPkgBase string, thorough bool) []*File {
 		cf.Deps = []*descriptorpb.FileDescriptorProto{o.fd}
 		cf.Only = "google"
 	}
+	// --- extensions whose enum / message type lives in another package
+	{
+		f := newFile("extimport", "proto2", goPkgBase)
+		f.fd.Dependency = []string{"otherpkg/otherpkg.proto"}
+		base := f.msg("Base")
+		f.field(base, "id", 1, "int32", lOpt, "", "")
+		base.ExtensionRange = []*descriptorpb.DescriptorProto_ExtensionRange{{Start: proto.Int32(100), End: proto.Int32(200)}}
+		holder := f.msg("Holder")
+		holder.Extension = append(holder.Extension,
+			&descriptorpb.FieldDescriptorProto{Name: proto.String("color"), Number: proto.Int32(100), Type: kindType["enum"].Enum(), Label: lOpt.Enum(), Extendee: proto.String(f.full("Base")), TypeName: proto.String(".csvcorpus.otherpkg.OE")},
+			&descriptorpb.FieldDescriptorProto{Name: proto.String("opt"), Number: proto.Int32(101), Type: kindType["message"].Enum(), Label: lOpt.Enum(), Extendee: proto.String(f.full("Base")), TypeName: proto.String(".csvcorpus.otherpkg.Other")})
+		cf := add(f, true, "proto2 extensions whose enum / message type is declared in another package")
+		cf.Deps = []*descriptorpb.FileDescriptorProto{o.fd}
+		cf.Only = "google"
+	}
 	// --- a file without messages
 	{
 		f := newFile("enumonly", "proto3", goPkgBase)
@@ -425,6 +440,23 @@ func Corpus(goPkgBase string, thorough bool) []*File {
 		cf := add(f, false, "field named size with specialname=Size (gogo)")
 		cf.Opts = "specialname=Size"
 		cf.Only = "gogo"
+	}
+	// --- special name that is also the name of a message type and of an extension
+	{
+		f := newFile("specialtype", "proto2", goPkgBase)
+		sz := f.msg("Size")
+		f.field(sz, "v", 1, "int32", lOpt, "", "")
+		h := f.msg("Holder")
+		f.field(h, "one", 1, "message", lOpt, "", f.full("Size"))
+		f.field(h, "many", 2, "message", lRep, "", f.full("Size"))
+		f.mapField(h, "by_name", 3, "string", "message")
+		h.NestedType[0].Field[1].TypeName = proto.String(f.full("Size"))
+		h.ExtensionRange = []*descriptorpb.DescriptorProto_ExtensionRange{{Start: proto.Int32(100), End: proto.Int32(200)}}
+		f.fd.Extension = append(f.fd.Extension,
+			&descriptorpb.FieldDescriptorProto{Name: proto.String("size"), Number: proto.Int32(100), Type: kindType["int32"].Enum(), Label: lOpt.Enum(), Extendee: proto.String(f.full("Holder"))},
+			&descriptorpb.FieldDescriptorProto{Name: proto.String("size_msg"), Number: proto.Int32(101), Type: kindType["message"].Enum(), Label: lOpt.Enum(), Extendee: proto.String(f.full("Holder")), TypeName: proto.String(f.full("Size"))})
+		cf := add(f, false, "specialname=Size where Size is also a message type and an extension name")
+		cf.Opts = "specialname=Size"
 	}
 	_ = thorough
 	return out
